@@ -5,7 +5,7 @@ assignment that satisfies the recorded constraints and is optimal for the record
 import itertools
 import z3
 from .common import *   # noqa: F401,F403
-from .common import (CONCRETE, prtpy, out, prt, objective, item_vars, numbers, NAMES, zsum, zmax, zmin, zi, zq, objective_z, describe, mod)
+from .common import (CONCRETE, prtpy, out, prt, objective, item_vars, numbers, NAMES, zsum, zmax, zmin, zi, zq, objective_z, le_objective, describe, mod)
 
 
 def count_vectors(total, k):
@@ -106,7 +106,7 @@ class ILP:
         if equal_w:
             c.check('constraint-violated', feasible(zs), 'the returned partition violates the additional constraint')
             mine = objective_z(self.obj, zs)
-            c.check('suboptimal-under-constraints', z3.And([z3.Or(z3.Not(feasible(ss)), mine <= objective_z(self.obj, ss)) for ss in cands]),
+            c.check('suboptimal-under-constraints', z3.And([z3.Or(z3.Not(feasible(ss)), le_objective(self.obj, mine, ss)) for ss in cands]),
                     'the returned partition is not optimal among those satisfying the constraints')
         elif self.obj == 'min' and con is None:
             # weighted max-min: min_i s_i/w_i is maximal over all labelled assignments
